@@ -327,7 +327,14 @@ func perturb(v interface{}) interface{} {
 			m[k] = e
 		}
 		if len(m) > 0 && chance(0.7) {
-			for k, e := range m {
+			ks := make([]string, 0, len(m))
+			for k := range m {
+				ks = append(ks, k)
+			}
+			sortStrings(ks)
+			k := ks[rng.Intn(len(ks))]
+			e := m[k]
+			{
 				if chance(0.5) {
 					m[k] = perturb(e)
 				} else if chance(0.5) {
@@ -335,7 +342,6 @@ func perturb(v interface{}) interface{} {
 				} else {
 					m[k] = nil
 				}
-				break
 			}
 		} else {
 			m["new"] = nil
@@ -468,13 +474,6 @@ func genMergePatch(doc interface{}, g genOpts, depth int) string {
 	return "{" + strings.Join(parts, ","+ws(g)) + "}"
 }
 
-func sortStrings(s []string) {
-	for i := 1; i < len(s); i++ {
-		for j := i; j > 0 && s[j] < s[j-1]; j-- {
-			s[j], s[j-1] = s[j-1], s[j]
-		}
-	}
-}
 
 func mergeStream(n int) {
 	for i := 0; i < n; i++ {
